@@ -1,5 +1,7 @@
 import Proofs.Reader
 import Proofs.ReaderDocs
+import Proofs.ReaderFormatNs
+import Proofs.ReaderDocsSchema
 /-!
 C03 — the model mirrors the source text, independent of formatting.
 
@@ -31,6 +33,21 @@ theorem C03.docs (c : Ctx) (ls : List Line) (w w' : W) (comp : Composite)
     comp.schemas.map (·.doc) = commentRun "" ls :: markerDocs ls :=
   readText_docs hwf h
 
+/-- … per schema — the comment-attachment rule in full: a comment line (or trailing comment) belongs to the closest
+    statement in front of it that no statement and no empty line separates from it; attached to an attribute statement it
+    is that attribute's doc, attached to `---` (resp. to the start of the text) it is the doc of the response (resp.
+    request / message) schema; comments behind an empty line or behind a directive are dropped.  `attrDocs ls` lists every
+    attribute statement with its run; the i-th schema gets the i-th piece, cut where the statements say the schemas end
+    (`Spec.of ls`, see `C03.mirror`).  Together with `C03.mirror` this determines the whole composite from the text. -/
+theorem C03.docs_per_schema (c : Ctx) (ls : List Line) (w w' : W) (comp : Composite)
+    (hwf : ∀ l ∈ ls, l.wf) (h : readText c ls w = .ok (comp, w')) :
+    comp.schemas.map (fun sc => sc.fields.map fun a => (a.core, a.doc)) =
+      splitLengths ((Spec.of ls).schemas.map (·.fields.length)) ((attrDocs ls).filter (fun p => !isConst p)) ∧
+    comp.schemas.map (fun sc => sc.consts.map fun a => (a.core, a.doc)) =
+      splitLengths ((Spec.of ls).schemas.map (·.consts.length)) ((attrDocs ls).filter isConst) ∧
+    comp.schemas.map (·.doc) = commentRun "" ls :: markerDocs ls :=
+  readText_docs_schema hwf h
+
 /-- Presence or absence of the final newline: an additional empty last line changes neither acceptance nor the
     result (docs included). -/
 theorem C03.final_newline (c : Ctx) (ls : List Line) (w : W) (crlf : Bool) :
@@ -42,15 +59,16 @@ theorem C03.crlf (c : Ctx) (ls : List Line) (w : W) (b : Bool) :
     readText c (ls.map fun l => { l with crlf := b }) w = readText c ls w :=
   readText_crlf c ls w b
 
-/-- Full statement about extra comment / blank lines: inserting a line without a statement anywhere changes neither
-    acceptance nor the model up to doc strings. -/
+/-- Statement about extra comment / blank lines as it was first written down: inserting a line without a statement
+    anywhere changes neither acceptance nor the model up to doc strings — for EVERY context and EVERY abstract line.
+    In this generality it is false of the model (`C03.blank_comment_lines_statement_false`), for two reasons that no
+    text can trigger; with the two side conditions it is `C03.blank_comment_lines`. -/
 def C03.blank_comment_lines_statement : Prop :=
   ∀ (c : Ctx) (ls₁ ls₂ : List Line) (l : Line) (w : W), l.stmt = none → l.fault = none →
     (okPart (readText c (ls₁ ++ l :: ls₂) w)).map (fun r => (r.1.schemas.map Schema.view, r.1.deprecated)) =
     (okPart (readText c (ls₁ ++ ls₂) w)).map (fun r => (r.1.schemas.map Schema.view, r.1.deprecated))
 
-/-- Proved part: when both texts are accepted, the models are equal up to doc strings (acceptance itself is compared
-    by the correspondence suite only). -/
+/-- Proved part without side conditions: when both texts are accepted, the models are equal up to doc strings. -/
 theorem C03.blank_comment_lines_partial (c : Ctx) (ls₁ ls₂ : List Line) (l : Line) (w w₁ w₂ : W) (c₁ c₂ : Composite)
     (hl : l.stmt = none)
     (h₁ : readText c (ls₁ ++ l :: ls₂) w = .ok (c₁, w₁)) (h₂ : readText c (ls₁ ++ ls₂) w = .ok (c₂, w₂)) :
@@ -59,6 +77,68 @@ theorem C03.blank_comment_lines_partial (c : Ctx) (ls₁ ls₂ : List Line) (l :
   have b := readText_mirror h₂
   rw [Spec.of_insert ls₁ ls₂ l hl] at a
   exact ⟨a.1.trans b.1.symm, a.2.trans b.2.symm⟩
+
+/-- What of an outcome C03 compares "up to doc strings": accepted or not; per schema the fields / paddings in source
+    order and the constants in source order (kind, name, type, value), the union flag, the serialization mode; the
+    deprecation flag; one schema for a message, two (request, response) for a service. -/
+def C03.obs (r : Option (Composite × W)) : Option (List SegSpec × Bool) :=
+  r.map fun r => (r.1.schemas.map Schema.view, r.1.deprecated)
+
+theorem C03.obs_of_fmtSim {E : W → W → Prop} {x y : Option (Composite × W)} (h : FmtSim E x y) : C03.obs x = C03.obs y := by
+  match x, y, h with
+  | none, none, _ => rfl
+  | some (a, wa), some (b, wb), h => simp [C03.obs, h.1, h.2.1]
+
+/-- **Acceptance and the model are a function of the statement sequence.**  For a document whose lines are well formed
+    (`Line.offsWf`: `_offset_` is evaluated through an identifier — true of every rendered text) and a context that does
+    not look at `@print` line numbers (`Ctx.lineBlind`: true of every context the namespace reader builds,
+    `C03.namespace_contexts_lineBlind`), `readText` accepts exactly when the declarative reading `aRead` of the statement
+    sequence `items ls` does — every attribute added the moment it is read, every check made on the statements in front,
+    no queue, no comments, no line numbers — and then the schemas (up to docs), the deprecation flag and the world
+    (`@print` deliveries up to their line, cache up to docs) are the ones `aRead` gives. -/
+theorem C03.statement_sequence (c : Ctx) (hc : c.lineBlind) (ls : List Line) (hwf : ∀ l ∈ ls, l.offsWf) (w : W) :
+    ResSim W.sim (okPart (readText c ls w)) (aRead c (items ls) w) :=
+  readText_abs W.sim_print hc ls hwf (W.sim_refl w)
+
+/-- **Formatting independence.**  Two documents with the same statement sequence — whatever their line structure: blank
+    and empty lines, comment lines, trailing comments, a final newline or none, LF or CR LF, string literals continued
+    over several physical lines — are both rejected, or both accepted with the same model up to doc strings. -/
+theorem C03.formatting_independence (c : Ctx) (hc : c.lineBlind) (ls₁ ls₂ : List Line)
+    (hwf₁ : ∀ l ∈ ls₁, l.offsWf) (hwf₂ : ∀ l ∈ ls₂, l.offsWf) (hit : items ls₁ = items ls₂) (w : W) :
+    C03.obs (okPart (readText c ls₁ w)) = C03.obs (okPart (readText c ls₂ w)) :=
+  C03.obs_of_fmtSim (readText_format W.sim_print W.sim_symm W.sim_trans hc hwf₁ hwf₂ hit (W.sim_refl w))
+
+/-- … the statement sequence of a document is that of its statement lines alone: everything else can be deleted. -/
+theorem C03.only_statement_lines_matter (ls : List Line) :
+    items ls = items (ls.filter fun l => l.stmt.isSome || l.fault == some .syn) :=
+  items_congr_stmtLines ls
+
+/-- … and for whole namespaces: if the definitions of two namespaces have pairwise the same statement sequences, reading
+    the same targets (dependencies at any depth, cached definitions, targets that were read before as a dependency)
+    fails in both, or yields in both the same composites up to doc strings, with the same `@print` deliveries up to
+    their line numbers. -/
+theorem C03.formatting_independence_namespace (defs₁ defs₂ : List Def) (hs : DefsSim defs₁ defs₂)
+    (hwf₁ : ∀ d ∈ defs₁, d.wf) (hwf₂ : ∀ d ∈ defs₂, d.wf) (ts : List Nat) :
+    NsSim (okPart (readTargets defs₁ ts W.init [])) (okPart (readTargets defs₂ ts W.init [])) :=
+  readTargets_sim hs hwf₁ hwf₂ ts W.init W.init [] [] (W.sim_refl _) rfl
+
+/-- every context the namespace reader builds is line-blind (non-vacuity of the hypothesis `Ctx.lineBlind`) -/
+theorem C03.namespace_contexts_lineBlind (defs : List Def) (hwf : ∀ d ∈ defs, d.wf) (self pf fuel : Nat) (ff : Bool) :
+    Ctx.lineBlind ⟨self, pf, defs.length, readDef fuel defs pf, ff⟩ :=
+  readDef_lineBlind defs hwf self pf fuel ff
+
+/-- **Extra comment / blank lines**: inserting a line without a statement — a comment line, a blank line, an empty line —
+    anywhere changes neither acceptance nor the model up to doc strings. -/
+theorem C03.blank_comment_lines (c : Ctx) (hc : c.lineBlind) (ls₁ ls₂ : List Line) (l : Line) (w : W)
+    (hwf : ∀ x ∈ ls₁ ++ ls₂, x.offsWf) (hl : l.stmt = none) (hf : l.fault ≠ some .syn) :
+    C03.obs (okPart (readText c (ls₁ ++ l :: ls₂) w)) = C03.obs (okPart (readText c (ls₁ ++ ls₂) w)) := by
+  refine C03.formatting_independence c hc _ _ ?_ hwf (items_insert ls₁ ls₂ l hl hf) w
+  intro x hx
+  simp only [List.mem_append, List.mem_cons] at hx
+  rcases hx with hx | rfl | hx
+  · exact hwf x (List.mem_append.mpr (Or.inl hx))
+  · intro _ st hst; rw [hl] at hst; cases hst
+  · exact hwf x (List.mem_append.mpr (Or.inr hx))
 
 namespace C03.Examples
 def ctx : Ctx := ⟨0, 0, 1, fun w _ => (w, none), false⟩
@@ -71,6 +151,27 @@ def svc : List Line :=
   [ln none (some " hdr"), ln none none true, fld "a" (some " da"), ln none (some " da2"),
    ln (some (.attr ⟨.padding, "", "void3", ""⟩)), ln (some (.attr ⟨.const, "B", "saturated uint8", "3"⟩)) (some " c"),
    dir "extent" (some (.rational 64)), ln (some .marker), dir "union", dir "sealed", fld "x", fld "y" (some "last")]
+/-- `svc` in another layout: no comments, CR LF, blank lines between all statements, a final empty line -/
+def svc' : List Line :=
+  (svc.filter fun l => l.stmt.isSome).flatMap fun l => [{ l with comment := none, crlf := true }, ln none none true]
+/-- `---` that "evaluates `_offset_`" — an abstract line no text produces -/
+def badMarker : Line := ⟨some .marker, [], [], true, none, none, false, false, 0⟩
+/-- a context whose dependency reader looks at the line numbers of earlier `@print` deliveries — no real reader does -/
+def lineSensitive : Ctx :=
+  ⟨0, 0, 2, fun w _ => if w.prints.any (fun p => p.line == 2) then (w, some ⟨1, none⟩) else (w, none), false⟩
+/-- A = `# doc`, `ns.B.1.0 b  # the b`, ``, `@sealed`;  B = `uint8 x`, `@print 1`, `@sealed` -/
+def nsA : List Def :=
+  [⟨[ln none (some " doc"), ⟨some (.attr ⟨.field, "b", "ns.B.1.0", ""⟩), [], [1], false, none, some " the b", false, false, 0⟩,
+     ln none none true, dir "sealed"], false⟩,
+   ⟨[fld "x", ⟨some (.directive "print" none "1"), [], [], false, none, none, false, false, 0⟩, dir "sealed"], false⟩]
+/-- the same namespace in another layout: A without comments and blank lines, B with a comment line in front of `@print`
+    (which moves it to line 3) and CR LF -/
+def nsB : List Def :=
+  [⟨[⟨some (.attr ⟨.field, "b", "ns.B.1.0", ""⟩), [], [1], false, none, none, false, false, 0⟩, dir "sealed"], false⟩,
+   ⟨[fld "x" (some " an x"), ln none (some " about to print"),
+     ⟨some (.directive "print" none "1"), [], [], false, none, none, false, true, 0⟩, dir "sealed"], false⟩]
+def prLine : Line := ⟨some (.directive "print" none "1"), [], [], false, none, none, false, false, 0⟩
+def depLine : Line := ⟨some (.attr ⟨.field, "b", "ns.B.1.0", ""⟩), [], [1], false, none, none, false, false, 0⟩
 end C03.Examples
 
 open C03.Examples in
@@ -110,3 +211,61 @@ example : (∀ l ∈ svc, l.wf) ∧
   intro l hl
   simp [svc, ln, fld, dir] at hl
   rcases hl with rfl | rfl | rfl | rfl | rfl | rfl | rfl | rfl | rfl | rfl | rfl | rfl <;> simp [Line.wf]
+
+open C03.Examples in
+/-- non-vacuity of `formatting_independence` / `statement_sequence`: the example context is line-blind, both layouts of
+    the service are well formed, have the same statement sequence, and are accepted -/
+example : ctx.lineBlind ∧ (∀ l ∈ svc, l.offsWf) ∧ (∀ l ∈ svc', l.offsWf) ∧ items svc = items svc' ∧ svc ≠ svc' ∧
+    (okPart (readText ctx svc W.init)).isSome = true ∧ (aRead ctx (items svc) W.init).isSome = true := by
+  refine ⟨⟨rfl, rfl, rfl, fun w₁ w₂ j h => ⟨Iff.rfl, fun _ => h⟩⟩, by decide, by decide, by decide, by decide, by decide, by decide⟩
+
+open C03.Examples in
+/-- The unconditional statement is false of the model, and each side condition of `C03.blank_comment_lines` is needed:
+    (1) a `---` line flagged as evaluating `_offset_` (impossible in a text: `_offset_` is an identifier and identifiers
+        flush) lets an empty line in front of it decide whether the last field of a union is committed before or after
+        the flag is set;
+    (2) a dependency reader that inspects the line numbers of earlier `@print` deliveries can tell the texts apart. -/
+theorem C03.blank_comment_lines_statement_false : ¬ C03.blank_comment_lines_statement := by
+  intro h
+  have := h ctx [dir "union", dir "sealed", fld "a", fld "b"] [badMarker, dir "sealed"] (emptyLine false) W.init rfl rfl
+  revert this
+  decide
+
+open C03.Examples in
+/-- … (2): `@print 1`, `ns.B.1.0 b`, `@sealed` with and without a comment line in front: the lines are well formed, only
+    the context is not line-blind -/
+example : (∀ l ∈ [prLine, depLine, dir "sealed"], l.offsWf) ∧ ¬ lineSensitive.lineBlind ∧
+    C03.obs (okPart (readText lineSensitive ([] ++ ln none (some " c") :: [prLine, depLine, dir "sealed"]) W.init)) ≠
+    C03.obs (okPart (readText lineSensitive ([] ++ [prLine, depLine, dir "sealed"]) W.init)) := by
+  refine ⟨by decide, ?_, by decide⟩
+  intro h
+  have := (h.2.2.2 ⟨[], [⟨0, 1, "1"⟩]⟩ ⟨[], [⟨0, 2, "1"⟩]⟩ 1 rfl).1
+  revert this
+  decide
+
+open C03.Examples in
+/-- non-vacuity of `formatting_independence_namespace`: two layouts of a namespace with a dependency and a `@print` that
+    stands on different lines; both are read successfully -/
+example : DefsSim nsA nsB ∧ (∀ d ∈ nsA, d.wf) ∧ (∀ d ∈ nsB, d.wf) ∧ nsA.map (·.lines) ≠ nsB.map (·.lines) ∧
+    (okPart (readTargets nsA [0, 1] W.init [])).isSome = true ∧
+    (okPart (readTargets nsA [0, 1] W.init [])).map (·.2.prints) = some [⟨0, 2, "1"⟩] ∧
+    (okPart (readTargets nsB [0, 1] W.init [])).map (·.2.prints) = some [⟨0, 3, "1"⟩] := by
+  refine ⟨⟨rfl, ?_⟩, ?_, ?_, by decide, by decide, by decide, by decide⟩
+  · intro i d₁ d₂ h₁ h₂
+    match i with
+    | 0 => simp [nsA, nsB] at h₁ h₂; subst h₁; subst h₂; exact ⟨by decide, rfl⟩
+    | 1 => simp [nsA, nsB] at h₁ h₂; subst h₁; subst h₂; exact ⟨by decide, rfl⟩
+    | n + 2 => simp [nsA] at h₁
+  · intro d hd
+    simp [nsA] at hd
+    rcases hd with rfl | rfl <;> (unfold Def.wf; decide)
+  · intro d hd
+    simp [nsB] at hd
+    rcases hd with rfl | rfl <;> (unfold Def.wf; decide)
+
+open C03.Examples in
+/-- non-vacuity of `docs_per_schema`: the docs of the example service, cut into request and response -/
+example : splitLengths ((Spec.of svc).schemas.map (·.fields.length)) (((attrDocs svc).filter (fun p => !isConst p)).map (·.2)) =
+      [["da\nda2", ""], ["", "last"]] ∧
+    splitLengths ((Spec.of svc).schemas.map (·.consts.length)) (((attrDocs svc).filter isConst).map (·.2)) = [["c"], []] := by
+  decide
